@@ -169,6 +169,11 @@ func (r *Run) genForwChain(depth int, m dhcpv6.DHCPv6, w []byte) (dhcpv6.DHCPv6,
 				lv.iid = r.Bytes(1 + r.Rng.Intn(6))
 				rm.Options.Options = append(rm.Options.Options, dhcpv6.OptInterfaceID(lv.iid))
 				ow = append(ow, tlvb(18, lv.iid)...)
+				if r.Rng.Intn(5) == 0 { // a second one behind it (two agents on one level): the first is the level's
+					other := r.Bytes(1 + r.Rng.Intn(6))
+					rm.Options.Options = append(rm.Options.Options, dhcpv6.OptInterfaceID(other))
+					ow = append(ow, tlvb(18, other)...)
+				}
 			}
 		}
 		addRID := func() {
@@ -176,6 +181,11 @@ func (r *Run) genForwChain(depth int, m dhcpv6.DHCPv6, w []byte) (dhcpv6.DHCPv6,
 				lv.rid = r.Bytes(4 + r.Rng.Intn(6))
 				rm.Options.Options = append(rm.Options.Options, &dhcpv6.OptRemoteID{EnterpriseNumber: uint32(lv.rid[0])<<24 | uint32(lv.rid[1])<<16 | uint32(lv.rid[2])<<8 | uint32(lv.rid[3]), RemoteID: lv.rid[4:]})
 				ow = append(ow, tlvb(37, lv.rid)...)
+				if r.Rng.Intn(5) == 0 { // remote ids are scoped by enterprise number: an access node and a BNG may each add one
+					other := r.Bytes(4 + r.Rng.Intn(6))
+					rm.Options.Options = append(rm.Options.Options, &dhcpv6.OptRemoteID{EnterpriseNumber: uint32(other[0])<<24 | uint32(other[1])<<16 | uint32(other[2])<<8 | uint32(other[3]), RemoteID: other[4:]})
+					ow = append(ow, tlvb(37, other)...)
+				}
 			}
 		}
 		if order == 0 {
